@@ -4,11 +4,18 @@ import (
 	"flag"
 	"fmt"
 	"os"
+	"runtime"
 	"sort"
 	"strconv"
 	"strings"
 	"time"
+
+	"golang.org/x/tools/go/ssa"
 )
+
+// properties whose anchors live in istiod (pilot-discovery); C18 (agent secret cache) and C20 (iptables) live in the agent / CNI binaries
+var istiodProps = map[string]bool{"C01": true, "C02": true, "C03": true, "C04": true, "C05": true, "C06": true, "C07": true, "C08": true, "C09": true, "C10": true,
+	"C11": true, "C12": true, "C13": true, "C15": true, "C16": true, "C17": true, "C19": true}
 
 var quickPatterns = []string{"./pilot/...", "./pkg/...", "./security/...", "./tools/istio-iptables/...", "./tools/common/..."}
 
@@ -46,48 +53,86 @@ func main() {
 		}
 	}
 	seed, _ := strconv.Atoi(os.Getenv("VERIF_SEED"))
-	patterns := quickPatterns
+	type loadCfg struct {
+		name     string
+		patterns []string
+		tags     string
+		only     map[string]bool // nil: every property
+	}
+	cfgs := []loadCfg{{"default", quickPatterns, *tags, nil}}
 	if *tier == "thorough" {
-		patterns = []string{"./..."}
+		// thorough: the whole main module (who-may-call / who-may-write rules see every package), then the two tag sets
+		// the release binaries are built with (Makefile.core.mk STANDARD_TAGS / AGENT_TAGS).
+		cfgs = []loadCfg{
+			{"default-whole-module", []string{"./..."}, *tags, nil},
+			{"istiod-release-tags", []string{"deps:./pilot/cmd/pilot-discovery"}, "vtprotobuf,disable_pgv", istiodProps},
+			{"agent-release-tags", []string{"deps:./pilot/cmd/pilot-agent", "deps:./cni/cmd/istio-cni", "deps:./cni/cmd/install-cni"},
+				"agent,disable_pgv,grpcnotrace,retrynotrace", map[string]bool{"C18": true, "C20": true}},
+		}
 	}
 	t0 := time.Now()
-	p, err := loadProg(*repo, patterns, *tags)
-	if err != nil {
-		// A tree that does not load/type-check cannot be decided: fail every requested property.
-		fmt.Println("load failure:", err)
-		for _, id := range ids {
-			fmt.Printf("VIOLATION property=%s replay=%s\n", id, "load-failure")
-		}
-		os.Exit(1)
-	}
 	known, pending := loadKnown(*verif)
-	rc := 0
+	ctxs := map[string]*Ctx{}
 	for _, id := range ids {
-		t1 := time.Now()
-		pd := props[id]
-		c := &Ctx{P: p, Prop: id, Tier: *tier, floors: map[string]int{}, Stats: map[string]any{}, known: known, pending: pending, ruleDocs: map[string]string{}}
-		for _, r := range pd.Rules {
-			if *only != "" && r.ID != *only {
-				continue
-			}
-			c.runRule(r)
-		}
-		wall := time.Since(t1).Seconds()
-		if len(ids) == 1 {
-			wall = time.Since(t0).Seconds()
-		}
-		pdRun := *pd
+		ctxs[id] = &Ctx{Prop: id, Tier: *tier, floors: map[string]int{}, Stats: map[string]any{}, known: known, pending: pending, ruleDocs: map[string]string{}}
+	}
+	runDefs := map[string]PropDef{}
+	for _, id := range ids {
+		pd := *props[id]
 		if *only != "" {
-			pdRun.Rules = nil
-			for _, r := range pd.Rules {
+			pd.Rules = nil
+			for _, r := range props[id].Rules {
 				if r.ID == *only {
-					pdRun.Rules = append(pdRun.Rules, r)
+					pd.Rules = append(pd.Rules, r)
 				}
 			}
 		}
-		if r := c.finish(*verif, seed, wall, pdRun); r > rc {
+		runDefs[id] = pd
+	}
+	for _, cf := range cfgs {
+		any := false
+		for _, id := range ids {
+			if cf.only == nil || cf.only[id] {
+				any = true
+			}
+		}
+		if !any {
+			continue
+		}
+		p, err := loadProg(*repo, cf.patterns, cf.tags)
+		if err != nil {
+			// A tree that does not load/type-check cannot be decided: fail every requested property.
+			fmt.Printf("load failure (config %s): %v\n", cf.name, err)
+			for _, id := range ids {
+				fmt.Printf("VIOLATION property=%s replay=%s\n", id, "load-failure")
+			}
+			os.Exit(1)
+		}
+		for _, id := range ids {
+			if cf.only != nil && !cf.only[id] {
+				continue
+			}
+			c := ctxs[id]
+			c.P, c.cfg = p, cf.name
+			for _, r := range runDefs[id].Rules {
+				c.runRule(r)
+			}
+			c.endConfig(runDefs[id])
+			c.P = nil
+		}
+		p = nil
+		resetCaches()
+		runtime.GC()
+	}
+	rc := 0
+	wall := time.Since(t0).Seconds()
+	for _, id := range ids {
+		if r := ctxs[id].finish(*verif, seed, wall/float64(len(ids)), runDefs[id]); r > rc {
 			rc = r
 		}
 	}
 	os.Exit(rc)
 }
+
+// resetCaches drops per-program state between load configurations (all analysis caches hang off *Prog).
+func resetCaches() { derivedSeen = map[ssa.Value]bool{} }
